@@ -1,6 +1,6 @@
 (** Proofs about the longitude_continuity model (C17). *)
 From Coq Require Import ZArith List Bool Lia ZifyBool.
-From Verde Require Import Model.Longitude.
+From Verde Require Import Lib.Verdict Model.Longitude.
 Import ListNotations.
 Open Scope Z_scope.
 
@@ -258,3 +258,97 @@ Proof.
 Qed.
 
 End Proofs.
+
+(** ** The decidable statement evaluated by the generated case files on the
+    implementation's output is a consequence of the theorems above: the
+    model's own output satisfies it for every input.  Hence whenever a case
+    reports [agree = true] (implementation output = model output), [holds] is
+    true as well; a case can only be reported as a violation when the
+    implementation's output differs from the model's. *)
+Section Reflect.
+Variable h : Z.
+Hypothesis Hh : 0 < h.
+
+Lemma representable_b_sound w e : representable_b h w e = true -> representable h w e.
+Proof.
+  unfold representable_b, representable. intros H. apply existsb_exists in H as [k [_ Hk]].
+  exists k. cbv zeta in *. lia.
+Qed.
+
+Lemma list_eqb_refl l : list_eqb Z.eqb l l = true.
+Proof. induction l as [|x t IH]; cbn; [reflexivity|]. rewrite Z.eqb_refl, IH. reflexivity. Qed.
+
+Lemma lon_ok_model w e lon :
+  in_range h w -> in_range h e -> Z.abs (e - w) <= 2 * h ->
+  representable h w e \/ full_globe h w e -> in_range h lon ->
+  let '(i360, W, E) := lc_region h w e in
+  lon_ok h w e W E lon (lc_lon h i360 W E lon) = true.
+Proof.
+  intros Hw He Hd Hr Hl.
+  pose proof (lc_membership h Hh w e lon Hw He Hd Hr Hl) as M.
+  destruct (lc_region h w e) as [[i W] E]. cbv zeta in M.
+  pose proof (lc_lon_congruent h Hh i W E lon Hl) as C.
+  unfold lon_ok. apply andb_true_iff. split; [lia|].
+  unfold full_globe in M. apply eqb_true_iff.
+  destruct ((W <=? lc_lon h i W E lon) && (lc_lon h i W E lon <=? E)) eqn:E1;
+  destruct ((Z.abs (e - w) =? 2 * h) || (east_angle h w lon <=? east_angle h w e)) eqn:E2;
+  try reflexivity; exfalso.
+  - assert (P: W <= lc_lon h i W E lon <= E) by lia. apply M in P. lia.
+  - assert (P: Z.abs (e - w) = 2 * h \/ east_angle h w lon <= east_angle h w e) by lia.
+    apply M in P. lia.
+Qed.
+
+Lemma lons_convention_model i W E lons :
+  Forall (in_range h) lons -> lons_convention h (map (lc_lon h i W E) lons) = true.
+Proof.
+  intros Hl. unfold lons_convention. apply orb_true_iff.
+  rewrite Forall_forall in Hl.
+  destruct i; [left|right]; apply forallb_forall; intros l Hin;
+    apply in_map_iff in Hin as [x [<- Hx]]; specialize (Hl x Hx).
+  - pose proof (lc_lon_convention h Hh true W E x Hl) as Cv. cbv zeta iota in Cv. lia.
+  - pose proof (lc_lon_convention h Hh false W E x Hl) as Cv. cbv zeta iota in Cv. lia.
+Qed.
+
+Theorem lc_model_holds q w e s n coords :
+  lc_holds h q w e s n coords (longitude_continuity h q w e s n coords) = true.
+Proof.
+  unfold lc_holds, longitude_continuity.
+  destruct (check_geo_region h q w e s n) eqn:Hc; [|reflexivity].
+  apply check_geo_region_iff in Hc as [Hw [He [Hs [Hn Hd]]]].
+  assert (Region:
+    let '(_, W, E) := lc_region h w e in
+    (if Z.abs (e - w) =? 2 * h then (W =? 0) && (E =? 2 * h)
+     else if representable_b h w e then
+       (W <=? E) && ((W - w) mod (2 * h) =? 0) && ((E - e) mod (2 * h) =? 0) && (E - W =? east_angle h w e)
+     else true) = true).
+  { destruct (Z.abs (e - w) =? 2 * h) eqn:Eg.
+    - rewrite (lc_full_globe h Hh w e) by (unfold full_globe; lia). lia.
+    - destruct (representable_b h w e) eqn:Er.
+      + apply representable_b_sound in Er.
+        assert (Hng: ~ full_globe h w e) by (unfold full_globe; lia).
+        pose proof (lc_valid h Hh w e Hw He Hd (or_introl Er)) as V.
+        pose proof (lc_congruent h Hh w e Hw He Hd Hng) as Cg.
+        pose proof (lc_width h Hh w e Hw He Hd Hng Er) as Wd.
+        destruct (lc_region h w e) as [[i W] E]. lia.
+      + destruct (lc_region h w e) as [[i W] E]. reflexivity. }
+  destruct (lc_region h w e) as [[i W] E] eqn:ER.
+  destruct coords as [[lons lats]|].
+  - destruct (check_geo_coords h q lons lats) eqn:Hcc; [|reflexivity].
+    rewrite !Z.eqb_refl. cbn [andb]. rewrite Region. cbn [andb].
+    rewrite list_eqb_refl, map_length, Nat.eqb_refl. cbn [andb].
+    apply check_geo_coords_iff in Hcc as [Hlons _].
+    destruct ((Z.abs (e - w) =? 2 * h) || representable_b h w e) eqn:Erep; [|reflexivity].
+    assert (Hr: representable h w e \/ full_globe h w e).
+    { apply orb_true_iff in Erep as [E1|E1]; [right; unfold full_globe; lia|left; apply representable_b_sound; exact E1]. }
+    apply andb_true_iff. split; [|apply lons_convention_model; exact Hlons].
+    apply forallb_forall. intros [lon l] Hin. cbn [fst snd].
+    assert (Hl: In lon lons /\ l = lc_lon h i W E lon).
+    { clear -Hin. induction lons as [|x t IH]; [destruct Hin|].
+      cbn in Hin. destruct Hin as [Hin|Hin]; [injection Hin as <- <-; split; [left; reflexivity|reflexivity]|].
+      destruct (IH Hin) as [H1 H2]. split; [right; exact H1|exact H2]. }
+    destruct Hl as [Hin2 ->]. rewrite Forall_forall in Hlons.
+    pose proof (lon_ok_model w e lon Hw He Hd Hr (Hlons lon Hin2)) as L. rewrite ER in L. exact L.
+  - rewrite !Z.eqb_refl. cbn [andb]. rewrite Region. reflexivity.
+Qed.
+
+End Reflect.
